@@ -22,7 +22,7 @@ namespace {
 static const QString kEnc = QStringLiteral("urn:xmpp:omemo:2");
 static const char *kAccounts[] = { "alice@example.org", "bob@example.org", "carol@example.net" };
 // key ids are globally unique; the first character names the owner
-static const char *kKeys[3][4] = { { "a1", "a2", "a3", "a4" }, { "b1", "b2", "b3", "b4" }, { "c1", "c2", "c3", "c4" } };
+static const char *kKeys[3][4] = { { "a1", "a2", "a3", "a4" }, { "b1", "b2", "b3", "a4" }, { "c1", "c2", "c3", "c4" } };
 
 // wraps the real memory storage; every returned task completes when the scheduler says so
 class DeferredStorage : public QXmppAtmTrustMemoryStorage
